@@ -81,7 +81,7 @@ class Env(object):
       return items
     if k == 1:
       return tuple(items)
-    return iter(items)
+    return _LogIter(self, site, items)
 
   def it2(self, site):
     n = self.choose(3)
@@ -99,6 +99,29 @@ class Env(object):
 
   def cm(self, site):
     return _CM(self, site)
+
+
+class _LogIter(object):
+  """A one-shot iterator whose consumption is observable: every __next__ call
+  (including the one that raises StopIteration) is an effect."""
+
+  def __init__(self, env, site, items):
+    self.env = env
+    self.site = site
+    self.items = list(items)
+    self.pos = 0
+
+  def __iter__(self):
+    return self
+
+  def __next__(self):
+    self.env.log.append(('next', self.site, self.pos))
+    if self.pos >= len(self.items):
+      self.pos += 1
+      raise StopIteration
+    v = self.items[self.pos]
+    self.pos += 1
+    return v
 
 
 class _CM(object):
